@@ -50,6 +50,16 @@ def groups(tier):
     ]
 
 
+def _is_const(t):
+    """const-qualified object type, read from the type itself (an array is const when its element type is): the pretty-printed
+    text is not enough - `static const char *names[]` prints as 'const char *[2]' and is a MUTABLE array of pointers."""
+    if "#constant" in (t.get("namedSub") or {}):
+        return True
+    if t.get("id") == "array" and t.get("sub"):
+        return _is_const(t["sub"][0])
+    return False
+
+
 def _static_objects(workroot, rel, min_funcs, min_objs):
     """(objects, functions) of static lifetime defined by the translation unit `rel`, from goto-cc's symbol table."""
     wd = tempfile.mkdtemp(prefix="c14sym_", dir=workroot)
@@ -76,7 +86,7 @@ def _static_objects(workroot, rel, min_funcs, min_objs):
             funcs += 1
             continue
         if s.get("isStaticLifetime"):
-            objs.append((k, s.get("prettyType", ""), loc.get("line")))
+            objs.append((k, s.get("prettyType", ""), loc.get("line"), _is_const(s.get("type", {}))))
     if funcs < min_funcs or len(objs) < min_objs:
         raise ExtractionError("vacuity guard: only %d functions / %d static objects seen in the symbol table of %s" % (funcs, len(objs), rel))
     return objs, funcs
@@ -95,7 +105,7 @@ def _nuked_statics(workroot):
         objs, funcs = _static_objects(workroot, "chips/nuked/ym3438.c", 25, 10)
     except ExtractionError as e:
         return dict(name=name, status="tool", detail=str(e))
-    mutable = [(k, t, l) for (k, t, l) in objs if not t.strip().startswith("const ")]
+    mutable = [(k, t, l) for (k, t, l, c) in objs if not c]
     if not mutable:
         return dict(name=name, status="ok", obligations=len(objs), discharged=len(objs), wall_s=round(time.time() - t0, 1),
                     detail="%d objects of static lifetime defined by ym3438.c, all const-qualified; %d functions" % (len(objs), funcs),
@@ -125,7 +135,7 @@ def _mame_statics(workroot):
         objs, funcs = _static_objects(workroot, "chips/mame/mame_ym2612fm.c", 40, 10)
     except ExtractionError as e:
         return dict(name=name, status="tool", detail=str(e))
-    mutable = [(k, t, l) for (k, t, l) in objs if not t.strip().startswith("const ")]
+    mutable = [(k, t, l) for (k, t, l, c) in objs if not c]
     kf = [k for k in json.load(open(os.path.join(VERIF, "known_findings.json"))).get("findings", [])
           if k.get("property") == "C14" and k.get("status") == "open" and k.get("extra") == name]
     listed = set(o for k in kf for o in k.get("objects", []))
